@@ -368,6 +368,14 @@ class PitRun:
                         self.bg.append('express-wrong-interest')
                 except Exception as ex:  # noqa
                     self.bg.append('express-unparsable-interest')
+        elif a == 'RecvDataFire':
+            # the packet is handed over in the loop iteration in which the due lifetime timers run: its callback first, the
+            # timer handles right behind it in the same ready queue
+            self.seen_data.append(ev['d'])
+            w = self.wrap(self.data_wire(ev['d']), ev['env'])
+            ex = deliver(self.sess, self.face, w, timers_now=True)
+            if ex is not None:
+                self.bg.append('receive:' + type(ex).__name__)
         elif a == 'RecvData':
             self.seen_data.append(ev['d'])
             w = self.wrap(self.data_wire(ev['d']), ev['env'])
@@ -459,6 +467,12 @@ class PitRun:
         return nt is not None and nt <= self.loop.time() + 1e-6
 
 
+def split_data_fire(ev):
+    """the composite stimulus as the two trace events NdnPitTrace reads: RecvData (hidden: no observation) + Fire"""
+    return [{'a': 'RecvData', 'd': ev['d'], 'env': ev['env'], 'x': [], 'hidden': True, 'post': ev['post']},
+            {'a': 'Fire', 'post': ev['post']}]
+
+
 def run_schedule(front, schedule):
     """schedule: list of events (dicts with 'a' + args). Returns the list of events with 'post'."""
     r = PitRun(front)
@@ -468,7 +482,10 @@ def run_schedule(front, schedule):
             r.apply(ev)
             ev2 = dict(ev)
             ev2['post'] = r.post()
-            out.append(ev2)
+            if ev['a'] == 'RecvDataFire':
+                out.extend(split_data_fire(ev2))
+            else:
+                out.append(ev2)
     finally:
         r.close()
     return out
